@@ -52,7 +52,10 @@ CLAIM = dict(
          "loops, required at every level, top-level loops with blocks in children, conditional/variable/Template-object "
          "extends; sync, async, generate, stream) against the model's result for the same structure sent over the wire, the "
          "specification deciding every difference; L-unit on Template.blocks, Context.blocks after the root functions, "
-         "Context.super/BlockReference depth arithmetic; exhaustive small scope (<=3 templates x <=2 block names x "
+         "Context.super/BlockReference depth arithmetic, Context.derived(locals) (lookups = model, original context "
+         "unchanged); directed probes: after a scoped block in a loop, later blocks/overrides/super targets/self calls print "
+         "the loop variable's name (render variable present and absent, templates with and without a top-level "
+         "assignment); exhaustive small scope (<=3 templates x <=2 block names x "
          "{absent, plain, super, required} quick; <=4 thorough).",
     note="Trusted: hand transcription of the generated code (tied by correspondence only, no L-code layer), text rendering of "
          "structures in the harness. The theorems do not cover text/blocks before extends (documented as printed), a second "
@@ -94,6 +97,27 @@ def src_piece(p) -> str:
 
 def src_body(ps) -> str:
     return "".join(src_piece(p) for p in ps)
+
+
+PAD_SET = "{% set zq9 = 'q' %}"
+
+
+def is_ext_head(p):
+    return p[0] in ("extl", "extd") or (p[0] == "if" and len(p[2]) == 1 and p[2][0][0] in ("extl", "extd"))
+
+
+def case_sources(case):
+    """template text of a case.  Templates named in case['sets'] additionally get a top-level assignment to a name
+    that no piece reads (after the leading extends, else at the start): it changes nothing the model or the
+    documentation speaks about, but makes Context.vars non-empty (other code paths in Context.get_all / derived)."""
+    out = {}
+    for n, body in case["tpls"]:
+        if n in case.get("sets", ()):
+            k = 1 if body and is_ext_head(body[0]) else 0
+            out[n] = src_body(body[:k]) + PAD_SET + src_body(body[k:])
+        else:
+            out[n] = src_body(body)
+    return out
 
 
 def wire_piece(p):
@@ -150,7 +174,7 @@ def real_run(jinja2, case, modes=MODES, envs=None, tblocks=False):
     """returns {mode: ["out", s] | ["err", kind]}, plus key "blocks" = Context.blocks after root_render_func and (tblocks)
     key "tblocks" = {template: list(Template.blocks) | "syntax"}"""
     if envs is None:
-        srcs = {n: src_body(body) for n, body in case["tpls"]}
+        srcs = case_sources(case)
         env = jinja2.Environment(loader=jinja2.DictLoader(srcs))
         aenv = jinja2.Environment(loader=jinja2.DictLoader(srcs), enable_async=True)
     else:
@@ -398,12 +422,59 @@ class HG:
                 if post and r.random() < 0.5:
                     body += self.top_body(lvl, names, declared, False)
             tpls.append([cname, body])
+        sets = []
+        if r.random() < 0.4:
+            sets = self.add_probe(tpls, vars_, depth)
         # a template outside the chain with the same block names
         zz = set()
         tpls.append(["zz", [["t", "ZZ"]] + [self.mkblock(0, names, i, zz, 0, False, []) for i in range(len(names)) if r.random() < 0.5]])
         r.shuffle(tpls)
         main = "c%d" % r.choice([depth - 1] * 4 + list(range(depth)))
-        return {"tpls": tpls, "vars": sorted(vars_.items()), "main": main, "tplobj": tplobj}
+        return {"tpls": tpls, "vars": sorted(vars_.items()), "main": main, "tplobj": tplobj, "sets": sets}
+
+    def add_probe(self, tpls, vars_, depth):
+        """a scoped block called inside a loop, then blocks / overrides / super targets / self calls rendered LATER that
+        print the loop variable's name (with a render variable of that name present or absent), and templates with and
+        without a top-level assignment: what a block sees must not depend on what ran before it."""
+        r = self.r
+        self.feat.add("scoped-loop-then-probe")
+        lv = r.choice(["x", "y"])
+        if r.random() < 0.5:
+            vars_[lv] = lv.upper() + "ctx"
+            self.feat.add("probe-name-in-render-vars")
+        else:
+            vars_.pop(lv, None)
+            self.feat.add("probe-name-undefined")
+        items = [r.choice(["1", "2", "k"]) for _ in range(r.randrange(1, 4))]
+        loop = ["for", lv, items, [["t", "["], ["b", "s1", True, False, [["v", lv]] + ([["sup", 0]] if r.random() < 0.1 else [])],
+                                   ["t", "]"]]]
+        root = tpls[0][1]
+        if r.random() < 0.3:
+            root.append(["b", "w1", False, False, [loop, ["v", lv]]])
+            self.feat.add("probe-loop-inside-block")
+        else:
+            root.append(loop)
+        root.append(["b", "p1", False, False, [["t", "<"], ["v", lv], ["t", ">"]]])
+        if r.random() < 0.5:
+            root.append(["self", "p1"])
+        if r.random() < 0.5:
+            root.append(["b", "p2", r.random() < 0.3, False, [["if", lv, [["t", "T"]]], ["v", lv]]])
+        if r.random() < 0.3:
+            root.append(["self", "s1"])
+        for lvl in range(1, depth):
+            body = tpls[lvl][1]
+            if r.random() < 0.5:
+                body.append(["b", "p1", False, False, [["t", "o%d" % lvl], ["v", lv], ["sup", 0]]])
+                self.feat.add("probe-override-with-super")
+            if r.random() < 0.3:
+                body.append(["b", "s1", False, False, [["t", "s%d" % lvl], ["v", lv], ["sup", 0]]])
+                self.feat.add("probe-scoped-placeholder-overridden")
+            if r.random() < 0.2:
+                body.append(["b", "p2", False, False, [["v", lv], ["self", "p1"]]])
+        sets = ["c%d" % l for l in range(depth) if r.random() < 0.3]
+        if sets:
+            self.feat.add("probe-top-level-assignment")
+        return sets
 
 
 # ---------------------------------------------------------------------------------------------
@@ -454,7 +525,7 @@ def small_scope(max_t, max_b):
 # ---------------------------------------------------------------------------------------------
 
 def describe(case):
-    return {"templates": {n: src_body(b) for n, b in case["tpls"]}, "vars": dict(case["vars"]),
+    return {"templates": case_sources(case), "vars": dict(case["vars"]),
             "template_object_vars": list(case.get("tplobj", ())), "main": case["main"]}
 
 
@@ -522,7 +593,10 @@ def run(ctx, res):
     k2 = {"tpls": [["a", [["t", "["], ["b", "b", False, False, [["t", "A"]]], ["t", "]"]]],
                    ["c", [["extl", "a"], ["for", "x", ["1", "2"], [["b", "b", True, False, [["t", "<"], ["v", "x"], ["t", ">"]]]]]]]],
           "vars": [], "main": "c", "tplobj": []}
-    fixed = [f3, dict(f3, main="c1"), k2]
+    leak = {"tpls": [["root", [["for", "item", ["1", "2"], [["b", "row", True, False, [["t", "["], ["v", "item"], ["t", "]"]]]]],
+                               ["t", "<"], ["b", "foot", False, False, [["v", "item"]]], ["t", ">"]]],
+                     ["kid", [["extl", "root"]]]], "vars": [["item", "CTX"]], "main": "kid", "tplobj": []}
+    fixed = [f3, dict(f3, main="c1"), k2, leak, dict(leak, vars=[]), dict(leak, sets=["kid"]), dict(leak, main="root")]
 
     # ---- exhaustive small scope -------------------------------------------------------------------------
     small = list(small_scope(ctx.pick(3, 4), 2))
@@ -572,7 +646,10 @@ def run(ctx, res):
                  "super.super / super.super.super / self calls, scoped and unscoped blocks inside loops, required blocks at "
                  "every level, static / conditional (true and false) / variable-name / Template-object extends, rarely: text "
                  "or a block before extends, a second extends, a missing parent, an undefined parent variable, a top-level "
-                 "loop with blocks in a child, a same-named distractor template), each rendered by render, generate, stream, "
+                 "loop with blocks in a child, a same-named distractor template; in 40% of the cases a directed probe: a scoped "
+                 "block called in a loop of the root, then blocks / overrides with super / self calls that print the loop "
+                 "variable's name, the name present or absent among the render variables, some templates padded with a "
+                 "top-level assignment to an unread name), each rendered by render, generate, stream, "
                  "render_async, generate_async and root_render_func and compared with the Lean model's result for the same "
                  f"structure; exhaustive small scope: all {len(small)} hierarchies with <= {ctx.pick(3, 4)} templates x <= 2 "
                  "block names x {absent, plain, super, required} per template and block (render, render_async, "
@@ -667,11 +744,54 @@ def run_unit(ctx, res, jinja2, cases):
                 if got_self != str(st[0]):
                     res.violate("C04:unit:self-head", f"TemplateReference['b']() on stack {st}: {got_self!r}",
                                 {"stack": st, "impl": got_self})
+    # (c) Context.derived(locals): what the derived context resolves (model: locals in front of the context
+    #     variables) and that the original context is left as it was (the model's variables are values, not state)
+    from jinja2.utils import missing as _missing
+    e = jinja2.Environment()
+    djobs = []
+    for parent in ({}, {"x": "P"}, {"x": "P", "g": "G"}):
+        for cvars in ({}, {"z": "Z"}, {"x": "V"}):
+            for loc in ({}, {"x": "1"}, {"x": "1", "y": "2"}, {"y": _missing, "x": "3"}, {"g": "L"}):
+                djobs.append((parent, cvars, loc))
+    names = ["x", "y", "g", "z", "nope"]
+    dreqs = []
+    for parent, cvars, loc in djobs:
+        locs = [[k, v] for k, v in loc.items() if v is not _missing]
+        allv = [[k, v] for k, v in cvars.items()] + [[k, v] for k, v in parent.items() if k not in cvars]
+        for nm in names:
+            dreqs.append([Atom("inh-lookup"), locs, allv, nm])
+    dreps = iter(core.driver_batch(dreqs))
+    derived_checked = 0
+    for parent, cvars, loc in djobs:
+        c = Context(e, dict(parent), "t", {})
+        c.vars.update(cvars)
+        before = (dict(c.parent), dict(c.vars), dict(c.get_all()))
+        d = c.derived(dict(loc))
+        after = (dict(c.parent), dict(c.vars), dict(c.get_all()))
+        evaluations += 1
+        derived_checked += 1
+        distinct.add(repr((parent, cvars, sorted(loc))))
+        if before != after:
+            res.violate("C04:unit:derived-changes-original-context",
+                        f"Context(parent={parent}, vars={cvars}).derived({ {k: v for k, v in loc.items() if v is not _missing} }) "
+                        f"changed the original context: {before} -> {after}",
+                        {"parent": parent, "vars": cvars, "locals": sorted(k for k in loc), "before": before, "after": after})
+        for nm in names:
+            rep = canon(next(dreps))
+            v = d.resolve_or_missing(nm)
+            got = "none" if v is _missing else ["some", v]
+            want = rep[1] if rep[0] == "ok" else rep
+            if got != want:
+                res.violate("C04:unit:derived-lookup",
+                            f"derived context of parent={parent}, vars={cvars}, locals={sorted(loc)} resolves {nm!r} to {got!r}, model {want!r}",
+                            {"parent": parent, "vars": cvars, "locals": sorted(loc), "name": nm, "impl": got, "model": want})
     return {"evaluations": evaluations, "distinct": len(distinct),
-            "template_blocks_checked": len(tp), "super_walks": len(jobs) * 2,
+            "template_blocks_checked": len(tp), "super_walks": len(jobs) * 2, "derived_contexts": derived_checked,
             "rule": (f"Template.blocks key order of {len(tp)} generated templates; Context.super + k x BlockReference.super "
                      f"+ call on every stack of <= {nmax} functions (and random stacks with repeated functions), every "
-                     "current function, k = 0..N, sync and async; TemplateReference[b]() = head of the stack")}
+                     "current function, k = 0..N, sync and async; TemplateReference[b]() = head of the stack; "
+                     f"Context.derived(locals) on {derived_checked} parent/vars/locals combinations: lookups = model, original "
+                     "context unchanged")}
 
 
 def replay(ctx, case):
